@@ -282,6 +282,41 @@ def check_get_result(repo, rep, selfn_push, resultfield, sizefields):
   selfn = f.params[0]
   sizeexprs = {'%s.%s' % (selfn, s) for s in sizefields}
   store = '%s.%s' % (selfn, resultfield)
+  # other instance state consulted by the read (a cache of sorted snapshots, say) must be invalidated by push on every
+  # path that changes a queue: otherwise what get_result returns depends on when it was called before
+  consulted = {x.attr for x in walk_no_nested(f.node)
+               if isinstance(x, ast.Attribute) and isinstance(x.value, ast.Name) and x.value.id == selfn and isinstance(x.ctx, ast.Load)
+               and x.attr != resultfield and x.attr not in sizefields and x.attr not in cls.methods and x.attr not in cls.getters}
+  pf_ = cls.methods.get('push')
+  if consulted and pf_ is not None:
+    pg = cfgmod.CFG(pf_.node)
+    psn = pf_.params[0]
+    for fld in sorted(consulted):
+      ftxt = '%s.%s' % (psn, fld)
+
+      def invalidates(n_, ftxt=ftxt):
+        if n_.kind != 'stmt':
+          return False
+        for x in ast.walk(n_.ast):
+          if isinstance(x, ast.Call) and isinstance(x.func, ast.Attribute) and norm(x.func.value) == ftxt and x.func.attr in ('pop', 'clear', 'popitem'):
+            return True
+          if isinstance(x, (ast.Attribute, ast.Subscript)) and isinstance(x.ctx, (ast.Store, ast.Del)) and (norm(x) == ftxt or norm(getattr(x, 'value', x)) == ftxt):
+            return True
+        return False
+      heapnodes = [n_ for n_ in pg.nodes if n_.kind in ('stmt', 'return') and n_.ast is not None
+                   and any((au.lib_name(pf_.module, c_.func) or '') in HEAP_OPS for c_ in au.calls_in(n_.ast))]
+      stale = None
+      for hn in heapnodes:
+        if invalidates(hn):
+          continue
+        before = pg.path_avoiding(pg.entry, lambda m: m is hn, invalidates, cfgmod.no_exc)
+        after = pg.path_avoiding(hn, lambda m: m is pg.exit, invalidates, cfgmod.no_exc)
+        if before is not None and after is not None:
+          stale = hn
+      rep.check(stale is None, 'R3/snapshot', 'state consulted by get_result (%s) is invalidated by every push that changes a queue' % fld, pf_.qualname,
+                'push path through `%s` leaves self.%s untouched' % (norm(stale.ast)[:50] if stale is not None else '', fld),
+                'get_result consults self.%s, but push has a path that changes a queue (%s) without invalidating it: after a read, later pushes are not reflected and reading changes what later reads return'
+                % (fld, norm(stale.ast)[:60] if stale is not None else ''), pf_.loc(stale.ast) if stale is not None else pf_.loc())
   # no write effect on the heap
   mut = []
   for sub in walk_no_nested(f.node):
